@@ -522,7 +522,39 @@ def run_c19_full(prop, mir, log, tier):
     return exit_code, cov
 
 
+def friendly_model(nm, log):
+    """ask z3 again for a counterexample that is cheap to replay natively: few stack items, small stack"""
+    path = os.path.join(WORK, "smt", re.sub(r"[^\w.-]", "_", nm)[:100] + ".smt2.model.smt2")
+    if not os.path.exists(path):
+        return None
+    text = open(path).read()
+    if "(declare-fun S " not in text or "(declare-fun n " not in text:
+        return None
+    head, tail = text.split("(check-sat)", 1)
+    for sbits in (12, 16, 20, 23, 26, 32):
+        extra = "(assert (bvule n (_ bv2 64)))\n(assert (bvult S (_ bv%d 64)))\n" % (1 << sbits)
+        tmp = path + ".friendly.smt2"
+        open(tmp, "w").write(head + extra + "(check-sat)" + tail)
+        try:
+            p = subprocess.run(["z3-new", "-smt2", "-T:120", tmp], stdout=subprocess.PIPE, stderr=subprocess.PIPE, text=True, timeout=150)
+        except subprocess.TimeoutExpired:
+            continue
+        if p.stdout.startswith("sat"):
+            model = {}
+            for m in re.finditer(r"\(([^\s()]+) #x([0-9a-fA-F]+)\)", p.stdout):
+                model[m.group(1)] = int(m.group(2), 16)
+            log("  replay-friendly counterexample: %s" % model)
+            return model
+    return None
+
+
 def replay_c19(nm, model, log):
+    if "cost" in model and (model.get("S", 0) > (1 << 26) or model.get("n", 0) > 4):
+        fm = friendly_model(nm, log)
+        if fm:
+            model = fm
+        else:
+            return "counterexample needs a stack of %d bytes / %d items; no smaller one exists within the replay limits" % (model.get("S", 0), model.get("n", 0))
     if "cost" not in model:
         # conversion queries: replay through the native conversion functions
         r = native(["convert", model.get("c1", 0), model.get("c2", 0), model.get("w1", 0), model.get("w2", 0), model.get("wu", 0)])
@@ -721,6 +753,93 @@ def run_c07(mir_text, log, tier):
                 badf.append(z3.And(c, z3.Not(inv(v.fields[1], aframes, mf))))
         sol.add("L2.%s extra_cells covers the interpreter's peak (or exceeds the limit)" % nm, hyp + [z3.Or(badc)], vars_for_model=lv)
         sol.add("L2.%s extra_frames covers the interpreter's peak (or exceeds the limit)" % nm, hyp + [z3.Or(badf)], vars_for_model=lv)
+    # ---- layer 1 (glue): RedeemData::new passes the right widths to the constructors.
+    # For each combinator the node's bounds, computed by the real RedeemData::new from its
+    # children's cached data and arrows, keep the invariant w.r.t. the recurrence evaluated on
+    # the children's *true* type widths.
+    try:
+        src_inner = open(os.path.join(REPO, "src", "node", "inner.rs")).read()
+        body = src_inner[src_inner.index("pub enum Inner"):]
+        body = body[body.index("{") + 1:body.index("\n}")]
+        variants = re.findall(r"^\s{4}([A-Z]\w*)", body, re.M)
+    except Exception as e:
+        raise Unsupported("cannot read the variant order of node::Inner: %s" % e)
+    if len(variants) != 16 or variants[0] != "Iden":
+        raise Unsupported("unexpected variants of node::Inner: %r" % variants)
+    vidx = {v: i for i, v in enumerate(variants)}
+    f_new = [g for g in funcs if g.name.startswith("redeem::") and g.name.endswith("::new") and g.ret == "RedeemData"]
+    if len(f_new) != 1:
+        raise Unsupported("RedeemData::new: %d MIR bodies" % len(f_new))
+    f_new = f_new[0]
+    gm = dict(mach.models)
+    for pat in (r"^Amr::\w+$", r"^Imr::\w+$", r"^Ihr::from_imr$", r"^<Cmr as Into<.*>>::into$", r"^<.* as From<Cmr>>::from$"):
+        gm[pat] = lambda mach_, name, args: [(M.T(), "ret", Opaque("root"))]
+    gm[r"^<Arc<RedeemData> as Deref>::deref$"] = M.m_deref
+    gm[r"^<&Arc<RedeemData> as Deref>::deref$"] = M.m_deref
+
+    def bw(mach_, name, args):
+        v = args[0]
+        while isinstance(v, Ref):
+            v = v.val
+        return [(M.T(), "ret", v.data["w"])]
+    gm[r"^Final::bit_width$"] = bw
+    gmach = M.Machine(funcs, gm)
+    orig_rvalue = gmach.rvalue
+
+    def rvalue(env, f, dst, rv):
+        m = re.match(r"^discriminant\((.+)\)$", rv.strip())
+        if m:
+            v = gmach.read_place(env, m.group(1))
+            if isinstance(v, Adt) and v.name == "Inner":
+                return z3.BitVecVal(vidx[v.variant], 64)
+        return orig_rvalue(env, f, dst, rv)
+    gmach.rvalue = rvalue
+
+    def fin(w):
+        return Ref(Opaque("final", {"w": w}))
+    a_s, a_t, l_s, l_t, r_s, r_t = [z3.BitVec(n, 64) for n in ("a_src", "a_tgt", "l_src", "l_tgt", "r_src", "r_tgt")]
+    gv = lv + [a_s, a_t, l_s, l_t, r_s, r_t]
+    arrow = Adt("FinalArrow", [fin(a_s), fin(a_t)])
+
+    def data(cells, frames, cost_, s_, t_):
+        return Ref(Ref(Adt("RedeemData", [Opaque("amr"), Opaque("imr"), Opaque("ihr"),
+                                          Adt("FinalArrow", [fin(s_), fin(t_)]),
+                                          Adt("NodeBounds", [cells, frames, Adt("Cost", [cost_])])])))
+    Ld, Rd = data(cl, fl, kl, l_s, l_t), data(cr, fr, kr, r_s, r_t)
+    hidden = Opaque("cmr")
+    z66 = z3.BitVecVal(0, 66)
+    glue_cases = [
+        ("Iden", [], [], z66, z66), ("Unit", [], [], z66, z66),
+        ("InjL", [Ld], [], ext(al), ext(gl)), ("InjR", [Ld], [], ext(al), ext(gl)),
+        ("Take", [Ld], [], ext(al), ext(gl)), ("Drop", [Ld], [], ext(al), ext(gl)),
+        ("AssertL", [Ld, hidden], [], ext(al), ext(gl)), ("AssertR", [hidden, Ld], [], ext(al), ext(gl)),
+        ("Case", [Ld, Rd], [], mx(ext(al), ext(ar)), mx(ext(gl), ext(gr))),
+        ("Pair", [Ld, Rd], [], mx(ext(al), ext(ar)), mx(ext(gl), ext(gr))),
+        # comp: the middle type is the left child's target (= the right child's source)
+        ("Comp", [Ld, Rd], [l_t == r_s], ext(l_t) + mx(ext(al), ext(ar)), 1 + mx(ext(gl), ext(gr))),
+        # disconnect: frames of the left child's source and target types; right source is a component of the left target
+        ("Disconnect", [Ld, Rd], [z3.ULE(r_s, l_t)], ext(l_s) + ext(l_t) + mx(ext(al), ext(ar)), 2 + mx(ext(gl), ext(gr))),
+    ]
+    for (vn, fields, typing, acells, aframes) in glue_cases:
+        inner = Adt("Inner", fields, vn)
+        outs = gmach.exec_fn(f_new, [arrow, inner])
+        pan = [c for (c, k, v) in outs if k == "panic"]
+        if pan:
+            sol.add("L1.%s RedeemData::new never panics on well-typed children" % vn, hyp + typing + [z3.Or(pan)], vars_for_model=gv)
+        badc, badf = [], []
+        for (c, k, v) in outs:
+            if k == "ret":
+                nb = v.fields[4]
+                badc.append(z3.And(c, z3.Not(inv(nb.fields[0], acells, mc))))
+                badf.append(z3.And(c, z3.Not(inv(nb.fields[1], aframes, mf))))
+        sol.add("L1.%s RedeemData::new: cell bound built from the children's true type widths covers the peak" % vn,
+                hyp + typing + [z3.Or(badc)], vars_for_model=gv)
+        sol.add("L1.%s RedeemData::new: frame bound covers the peak" % vn, hyp + typing + [z3.Or(badf)], vars_for_model=gv)
+    for fn_ in gmach.encoded:
+        if fn_ not in mach.encoded:
+            mach.encoded.append(fn_)
+    mach.modelled += gmach.modelled
+
     problems = []
     for q in sol.run_all():
         if q["verdict"] != "holds":
@@ -852,6 +971,9 @@ def replay_c07(nm, model, log):
         return replay_c07_family("limits_family", log,
                                  lambda j: (not j.get("refused", False)) or j.get("panicked_before_exec", False))
     m = re.match(r"^L2\.(\w+) ", nm)
+    if nm.startswith("L1."):
+        return replay_c07_family("peaks", log, lambda j: j.get("panicked") or (j["max_cells"] - j["io_cells"] > j["extra_cells"])
+                                 or (max(0, j["max_frames"] - j["io_frames"]) > j["extra_frames"]))
     if m and "covers the interpreter" in nm:
         # a bound that does not cover the run: look for it on the concrete program family
         return replay_c07_family("peaks", log, lambda j: j.get("panicked") or (j["max_cells"] - j["io_cells"] > j["extra_cells"])
